@@ -358,6 +358,98 @@ def run_histories(args):
     return p
 
 
+def run_cli_part(_):
+    """the command line with --compiled-template-cache-max: decode -m (flat text, nested JSON) of files holding the pool
+    messages in every order of length 3, subset and encode; and `compile` (by descriptor list and by file), whose JSON
+    must load into a template that decodes like the non-compiled path.  Output must equal the output without the option."""
+    from mc.engine.cli import run_cli
+    from pybufrkit.templatecompiler import loads_compiled_template
+    p = Partial()
+    pool, e = history_pool()
+    scratch = os.environ.get('VERIF_SCRATCH') or '/dev/shm'
+    fn = os.path.join(scratch, 'c08_%d.bufr' % os.getpid())
+    fo = fn + '.out'
+    try:
+        orders = list(itertools.product(range(len(pool)), repeat=3))
+        for order in orders:
+            with open(fn, 'wb') as f:
+                f.write(b''.join(pool[i][1] for i in order))
+            for flags in ([], ['-j', '-a']):
+                if flags and order[0] > order[1]:
+                    continue
+                base = run_cli(['decode', '-m'] + flags + [fn])
+                for size in ('0', '1', '2'):
+                    p.n['exec'] += 1
+                    got = run_cli(['decode', '-m', '--compiled-template-cache-max', size] + flags + [fn])
+                    p.outcome(('decode', bool(flags), size, len(set(order))))
+                    if (got[0], repr(got[2]), got[3]) != (base[0], repr(base[2]), base[3]):
+                        k = next((i for i, (x, y) in enumerate(zip(got[0], base[0])) if x != y), 0)
+                        p.violation('cli-decode|cache%s' % size, {'order': list(order), 'flags': flags, 'cache': size},
+                                    'decode -m %s of %r with --compiled-template-cache-max %s differs from the output without it '
+                                    '(%r / %r) near %r vs %r' % (' '.join(flags), [pool[i][0] for i in order], size, got[2], base[2],
+                                                                 got[0][max(0, k - 40):k + 40], base[0][max(0, k - 40):k + 40]))
+        # encode and subset
+        for i, (name, b) in enumerate(pool):
+            with open(fn, 'wb') as f:
+                f.write(b)
+            js = run_cli(['decode', '-j', fn])[0]
+            outs = []
+            for size in (None, '1'):
+                if os.path.exists(fo):
+                    os.remove(fo)
+                r = run_cli(['encode', '-j'] + (['--compiled-template-cache-max', size] if size else []) + ['-', fo], stdin_text=js)
+                outs.append((open(fo, 'rb').read() if os.path.exists(fo) else None, repr(r[2]), r[3]))
+            p.n['exec'] += 1
+            p.outcome(('encode', name))
+            if outs[0] != outs[1] or outs[0][0] != b:
+                p.violation('cli-encode', {'message': name}, 'encode -j of %s: with the option %r, without %r, original %d bytes'
+                            % (name, outs[1][0] and outs[1][0].hex()[:60], outs[0][0] and outs[0][0].hex()[:60], len(b)))
+            if i == 3:
+                outs = []
+                for size in (None, '1'):
+                    if os.path.exists(fo):
+                        os.remove(fo)
+                    r = run_cli(['subset'] + (['--compiled-template-cache-max', size] if size else []) + ['1,0', fn, fo])
+                    outs.append((open(fo, 'rb').read() if os.path.exists(fo) else None, repr(r[2]), r[3]))
+                p.n['exec'] += 1
+                p.outcome(('subset', name))
+                if outs[0] != outs[1] or outs[0][0] is None:
+                    p.violation('cli-subset', {'message': name}, 'subset 1,0 with / without the option differ: %r vs %r'
+                                % (outs[1][0] and outs[1][0].hex()[:60], outs[0][0] and outs[0][0].hex()[:60]))
+        # compile: by descriptor list and by file
+        from pybufrkit.decoder import Decoder
+        for name, b in pool:
+            pm = message.parse(b)
+            with open(fn, 'wb') as f:
+                f.write(b)
+            ids = ','.join('%06d' % d for d in pm.descs)
+            for how, argv in (('list', ['compile', '--master-table-version', str(pm.meta['master_table_version']), ids]),
+                              ('file', ['compile', fn])):
+                p.n['exec'] += 1
+                out, err, exc, code = run_cli(argv)
+                case = {'message': name, 'how': how}
+                p.outcome(('compile', how, name))
+                try:
+                    ct = loads_compiled_template(out)
+                except Exception as ex:
+                    p.violation('cli-compile-unloadable', case, 'compile %s: %r / %r, output %r' % (how, exc, ex, out[:80]))
+                    continue
+
+                class One(object):
+                    def get_or_compile(self, template, table_group, ct=ct):
+                        return ct
+                d = Decoder(compiled_template_cache_max=1)
+                d.compiled_template_manager = One()
+                if not same_obs(observe(d, b), observe(dec('nc'), b)):
+                    p.violation('cli-compile-behaviour', case, 'the template printed by compile (%s) decodes %s differently: %s'
+                                % (how, name, first_diff(observe(d, b), observe(dec('nc'), b))))
+    finally:
+        for f_ in (fn, fo):
+            if os.path.exists(f_):
+                os.remove(f_)
+    return p
+
+
 def run_freeform(args):
     """free-form programs (mc.gen.freeform) x data patterns x (1 subset, 2 subsets, 2 subsets compressed): the non-compiled
     decoder's reading of the pattern is the base line; compiled, reloaded and both encoders must agree with it"""
@@ -383,6 +475,9 @@ def run_freeform(args):
 
 
 def replay(part, case):
+    if part == 'cli':
+        p = run_cli_part(None)
+        return [{'sig': v['sig'], 'detail': v['detail']} for v in p.viol if v['case'] == case]
     if part.startswith('freeform'):
         from mc.gen import freeform as F
         r = compare_paths(F.build(case['descs'], case['pattern'], case['nsub'], case['compressed']))
@@ -480,4 +575,8 @@ def main(tier, seed):
     orders = [o for n in range(1, maxlen + 1) for o in itertools.product(range(4), repeat=n)]
     p = merge_all(run_shards(run_histories, [(s, [0, 1, 2, 8]) for s in split(orders, 32)]))
     rep.add_part('histories', p, bounds={'orders': len(orders), 'max_length': maxlen, 'cache_sizes': [0, 1, 2, 8]})
+    p = run_cli_part(None)
+    p.n['nodes'], p.n['edges'] = p.n['exec'] + 1, p.n['exec']
+    rep.add_part('cli', p, bounds={'invocations': p.n['exec'], 'commands': ['decode -m', 'encode', 'subset', 'compile'],
+                                   'cache_sizes': [0, 1, 2], 'orders': 'every order of 3 over the 4-program pool'})
     return rep.finish()
